@@ -29,21 +29,25 @@ class ProgInfo:
         self.rel_off = set()
         self.uses_abs_read = False
         self.other_globals = set()
+        self.inner_fields = set()  # fields read from the last inner transaction (`itxn f`, `gitxn t f`): not a group member
         ins = list(instructions)
         for k, i in enumerate(ins):
             ok, v = (False, None)
-            if isinstance(i, (I.Int, I.PushInt)):
+            # by EXACT class, like the protocol encoder (impl.enc_ins): what a class inherits from is tealer's business
+            if type(i) in (I.Int, I.PushInt):
                 if isinstance(i.value, int): self.consts.add(i.value)
-            elif isinstance(i, I.Intcblock):
+            elif type(i) is I.Intcblock:
                 self.consts.update(i.constants)
-            elif isinstance(i, I.Addr):
+            elif type(i) is I.Addr:
                 self.addr_lits.add(i.addr)
-            elif isinstance(i, I.Txn):
+            elif type(i) is I.Txn:
                 self.reads.setdefault('self', set()).add(impl.field_name(i.field))
-            elif isinstance(i, I.Gtxn):
+            elif type(i) is I.Gtxn:
                 self.reads.setdefault(('abs', i.idx), set()).add(impl.field_name(i.field)); self.abs_idx.add(i.idx)
-            elif isinstance(i, I.Gtxns):
+            elif type(i) is I.Gtxns:
                 self.reads.setdefault('stack', set()).add(impl.field_name(i.field))
+            elif type(i) in (I.Itxn, I.Gitxn):
+                self.inner_fields.add(impl.field_name(i.field))
         self.stack_fields = self.reads.pop('stack', set())
 
     def num_values(self, lo, hi, extra=()):
@@ -54,6 +58,9 @@ class ProgInfo:
         return sorted(v for v in vals if lo <= v <= hi)
 
 
+INNER = 16
+
+
 def enc_val(v):
     return ('i%d' % v) if isinstance(v, int) else ('b' + impl.penc(v))
 
@@ -61,7 +68,7 @@ def enc_val(v):
 def env_line(rid, fuel, size, self_idx, txns):
     """txns: dict index -> dict field -> value"""
     specs = []
-    for i in range(size):
+    for i in range(17 if INNER in txns else size):       # position 16 (beyond every group size): the last inner transaction
         f = txns.get(i, {})
         specs.append(';'.join(f"{impl.penc(k)}={enc_val(v)}" for k, v in sorted(f.items())))
     return f"run {rid} {fuel} {size} {self_idx} CREATOR " + '|'.join(specs)
@@ -262,6 +269,15 @@ def draw_envs(info, rng, n):
                 t, oc, a = rng.choice(kinds)
                 m['TypeEnum'], m['OnCompletion'], m['ApplicationID'] = t, oc, a
                 txns[i] = m
+        if info.inner_fields:
+            m = {}
+            for f in info.inner_fields:
+                if f == 'Fee': m[f] = rng.choice(fee_vals)
+                elif f in ADDR_FIELDS: m[f] = rng.choice(addr_pool)
+                elif f == 'TypeEnum': m[f] = rng.choice((1, 1, 4, 6))
+                elif f in ('OnCompletion', 'ApplicationID'): m[f] = rng.choice((0, 0, 1, 5))
+                else: m[f] = rng.choice(opaque_vals)
+            txns[INNER] = m
         forced = None
         if rng.random() < 0.6:
             forced = rng.choice(dets)
